@@ -1,14 +1,353 @@
-import BoltonsVerif.C10.Proofs
+import BoltonsVerif.C10.Backends
 /-
-C10 — property theorems (statements + short derivations from `Proofs.lean`) and non-vacuity examples.
+C10 — property theorems (statements + short derivations from Proofs/Queue/Backends.lean)
+and non-vacuity examples.
+
+Reading guide.  `Spec T = List (T × Int)` is the list of LIVE tasks with their priority in
+order of (re-)insertion; `Spec.step` is the property statement read literally:
+  add t p   : drop t if present, append (t, p)          ("replaces priority and arrival position")
+  remove t  : KeyError if absent, else drop t
+  pop/peek  : `best` = the FIRST task among those of GREATEST priority; empty -> IndexError/default
+  len       : number of live tasks
+Section A: BarrelList (`BL`) behaves like a plain list whatever the sub-list structure and
+whatever the size-limit function.  Section B: the queue model over ANY backend satisfying the
+min-queue laws (`Lawful`) — in particular over the BarrelList/insort backend and over the
+heap stand-in — returns, for EVERY history, exactly what `Spec` returns.  Section C: the
+clauses of the statement, spelled out for every history.
 -/
 namespace C10
 
+/-! ## A. BarrelList index translation -/
+section A
+variable {α : Type}
+
 /-- `list(bl.insert(i, x)) == list(bl)[:i] + [x] + list(bl)[i:]` for EVERY `i ≥ 0`, any number of
-    sub-lists, any size-limit function — in particular `i = len(bl)` (the end-of-list case that was
-    broken before the fix) -/
-theorem barrel_flatten_insert {α : Type} (limit : Nat → Nat) (b : BL α) (h : b.ok) (i : Nat) (x : α) :
+    sub-lists, any size-limit function — in particular `i = len(bl)` (broken before the fix) -/
+theorem barrel_flatten_insert (limit : Nat → Nat) (b : BL α) (h : b.ok) (i : Nat) (x : α) :
     (b.insert limit i x).toList = b.toList.take i ++ x :: b.toList.drop i :=
   BL.insert_toList limit b h i x
+
+/-- the same with core's `insertIdx`, for `0 ≤ i ≤ len` -/
+theorem barrel_flatten_insertIdx (limit : Nat → Nat) (b : BL α) (h : b.ok) (i : Nat) (x : α)
+    (hi : i ≤ b.len) : (b.insert limit i x).toList = b.toList.insertIdx i x := by
+  rw [barrel_flatten_insert limit b h i x]
+  rw [BL.len_eq] at hi
+  generalize b.toList = l at hi
+  induction l generalizing i with
+  | nil => simp at hi; subst hi; simp
+  | cons a as ih =>
+    cases i with
+    | zero => simp
+    | succ k => simp [List.insertIdx_succ_cons, ih k (by simpa using hi)]
+
+/-- the end-of-list case: `bl.insert(len(bl), x)` appends -/
+theorem barrel_insert_at_end (limit : Nat → Nat) (b : BL α) (h : b.ok) (x : α) :
+    (b.insert limit b.len x).toList = b.toList ++ [x] := by
+  rw [barrel_flatten_insert limit b h, BL.len_eq]
+  simp
+
+/-- `insert` keeps the representation invariant (`lists` non-empty) -/
+theorem barrel_insert_ok (limit : Nat → Nat) (b : BL α) (h : b.ok) (i : Nat) (x : α) :
+    (b.insert limit i x).ok := BL.insert_ok limit b h i x
+
+/-- `len(bl) == len(list(bl))` -/
+theorem barrel_len (b : BL α) : b.len = b.toList.length := BL.len_eq b
+
+/-- `bl[i] == list(bl)[i]`, IndexError exactly when `i ≥ len` -/
+theorem barrel_getitem (b : BL α) (h : b.ok) (i : Nat) : b.get? i = b.toList[i]? := BL.get?_eq b h i
+
+/-- `bl.pop(i)` raises IndexError exactly when `i ≥ len` … -/
+theorem barrel_pop_error (limit : Nat → Nat) (b : BL α) (h : b.ok) (i : Nat) :
+    b.pop? limit i = none ↔ b.len ≤ i := by
+  rw [BL.len_eq]; exact BL.pop?_none limit b h i
+
+/-- … and otherwise returns `list(bl)[i]` and leaves `list(bl)` without that position -/
+theorem barrel_pop (limit : Nat → Nat) (b : BL α) (h : b.ok) (i : Nat) (x : α) (b' : BL α)
+    (hp : b.pop? limit i = some (x, b')) :
+    b.toList[i]? = some x ∧ b'.toList = b.toList.eraseIdx i ∧ b'.ok :=
+  BL.pop?_some limit b h i x b' hp
+
+/-- `_balance_list` never changes the contents, whatever the limit -/
+theorem barrel_balance_contents (limit : Nat → Nat) (ls : List (List α)) (li : Nat) :
+    (balance limit ls li).flatten = ls.flatten := balance_flatten limit ls li
+
+/-- the `while` loop of `_balance_list` terminates within `len(cur_list)` rounds with the
+    remaining `cur_list` no longer than `half_limit` (the model's fuel suffices) -/
+theorem barrel_split_terminates (half : Nat) (cur : List α) :
+    ∃ c rest, splitLoop half cur.length cur [] = c :: rest ∧ c.length ≤ half :=
+  splitLoop_head_le half cur.length cur [] (Nat.le_refl _)
+
+/-- `bisect_right` over `len`/`__getitem__` of an ascending BarrelList returns the position after
+    the last element `≤ x` (and the model's fuel suffices) -/
+theorem barrel_bisect_right (lt : α → α → Bool) (ho : BisectOrder lt) (x : α) (b : BL α) (hb : b.ok)
+    (hs : Asc lt b.toList) :
+    bisectRight lt x b ≤ b.toList.length ∧
+    (∀ y ∈ b.toList.take (bisectRight lt x b), lt x y = false) ∧
+    (∀ y ∈ b.toList.drop (bisectRight lt x b), lt x y = true) :=
+  bisectRight_spec lt ho x b hb hs
+
+/-- `insort` keeps an ascending BarrelList ascending (and only adds `x`) -/
+theorem sorted_preserved (limit : Nat → Nat) (lt : α → α → Bool) (ho : BisectOrder lt)
+    (hirr : ∀ a b, lt a b = true → lt b a = false) (x : α) (b : BL α) (hb : b.ok)
+    (hs : Asc lt b.toList) :
+    Asc lt (insort limit lt x b).toList ∧ (insort limit lt x b).toList.Perm (x :: b.toList) := by
+  refine ⟨insort_asc limit lt ho hirr x b hb hs, ?_⟩
+  rw [insort_toList limit lt x b hb]
+  exact pyInsert_perm _ _ _
+
+/-- record of the repaired defect: with the unfixed index translation, inserting at the very end of
+    a BarrelList with two sub-lists put the item at the FRONT of the last sub-list -/
+theorem unfixed_insert_at_end_misplaces :
+    (insertUnfixed [[1, 2], [3, 4]] 4 5).flatten = [1, 2, 5, 3, 4] ∧
+    (BL.insert (fun _ => 100) ⟨[[1, 2], [3, 4]]⟩ 4 5).toList = [1, 2, 3, 4, 5] := by decide
+
+end A
+
+/-! ## B. refinement -/
+section B
+variable {T : Type} [DecidableEq T]
+
+/-- the BarrelList/insort/pop(0) backend satisfies the min-queue laws for every size-limit function -/
+theorem sorted_backend_lawful (limit : Nat → Nat) :
+    Lawful (sortedBackend (T := T) limit) sortedWf BL.toList := sorted_lawful limit
+
+/-- so does the driver's stand-in for heapq -/
+theorem heap_standin_lawful : Lawful (listHeap (T := T)) (fun _ => True) id := listHeap_lawful
+
+/-- MAIN: over any lawful backend, every history of add / re-add / remove / pop / peek / len
+    yields exactly the specification's return values and exceptions, and the reached state
+    stands for the specification's state -/
+theorem lawful_backend_refines_spec {β : Type} (B : Backend T β) (wf : β → Prop)
+    (content : β → List (Entry T)) (L : Lawful B wf content) (ops : List (Op T)) :
+    (PQ.run B ops).2 = (Spec.run ops).2 ∧ absSpec (PQ.run B ops).1 = (Spec.run ops).1 :=
+  ⟨(run_sim L ops).2.2, (run_sim L ops).2.1⟩
+
+/-- SortedPriorityQueue (any number of sub-lists, any size limits) -/
+theorem sorted_refines_spec (limit : Nat → Nat) (ops : List (Op T)) :
+    (PQ.run (sortedBackend limit) ops).2 = (Spec.run ops).2 :=
+  (run_sim (sorted_lawful limit) ops).2.2
+
+/-- HeapPriorityQueue (heapq abstracted to the min-queue laws) -/
+theorem heap_refines_spec (ops : List (Op T)) :
+    (PQ.run listHeap ops).2 = (Spec.run ops).2 :=
+  (run_sim listHeap_lawful ops).2.2
+
+/-- the two implementations are observationally identical, at any queue size -/
+theorem heap_sorted_observationally_equal (limit : Nat → Nat) (ops : List (Op T)) :
+    (PQ.run (sortedBackend limit) ops).2 = (PQ.run listHeap ops).2 := by
+  rw [sorted_refines_spec, heap_refines_spec]
+
+/-- … and so are any two lawful backends -/
+theorem lawful_backends_observationally_equal {β β' : Type} (B : Backend T β) (B' : Backend T β')
+    (wf : β → Prop) (content : β → List (Entry T)) (wf' : β' → Prop) (content' : β' → List (Entry T))
+    (L : Lawful B wf content) (L' : Lawful B' wf' content') (ops : List (Op T)) :
+    (PQ.run B ops).2 = (PQ.run B' ops).2 := by
+  rw [(run_sim L ops).2.2, (run_sim L' ops).2.2]
+
+/-- the sorted backend of every reachable state is ascending by `(priority, count)` -/
+theorem sorted_backend_always_sorted (limit : Nat → Nat) (ops : List (Op T)) :
+    Asc Entry.lt (PQ.run (sortedBackend limit) ops).1.pq.toList :=
+  (run_sim (sorted_lawful limit) ops).1.wf.2
+
+end B
+
+/-! ## C. the clauses of the statement, for every history -/
+section C
+variable {T : Type} [DecidableEq T]
+
+/-- a task is live at most once (so `len` counts tasks) -/
+theorem live_tasks_nodup (ops : List (Op T)) : ((live ops).map Prod.fst).Nodup := by
+  obtain ⟨hI, habs, _⟩ := run_sim (listHeap_lawful (T := T)) ops
+  have := hI.knodup
+  unfold live
+  rw [← habs]
+  unfold absSpec
+  rw [List.map_map]
+  exact this
+
+/-- pop/peek return exactly the task of HIGHEST priority, the EARLIEST (re-)inserted among equals:
+    every live task inserted before it has strictly lower priority, none inserted after it has higher -/
+theorem pop_returns_max_priority_fifo {β : Type} {B : Backend T β} {wf : β → Prop}
+    {content : β → List (Entry T)} (L : Lawful B wf content) (ops : List (Op T)) (d : Bool) (t : T)
+    (h : nextOut B ops (.pop d) = .task t ∨ nextOut B ops (.peek d) = .task t) :
+    ∃ p pre post, live ops = pre ++ (t, p) :: post ∧
+      (∀ y ∈ pre, y.2 < p) ∧ (∀ y ∈ post, y.2 ≤ p) := by
+  rw [nextOut_eq_spec L, nextOut_eq_spec L] at h
+  simp only [Spec.step] at h
+  cases hb : best (live ops) with
+  | none => cases d <;> simp [hb, emptyOut] at h
+  | some x =>
+    simp only [hb, Out.task.injEq, or_self] at h
+    obtain ⟨pre, post, h1, h2, h3⟩ := best_decomp (live ops) x hb
+    refine ⟨x.2, pre, post, ?_, h2, h3⟩
+    rw [h1, ← h]
+
+/-- pop/peek on an empty queue raise IndexError or return the given default; on a non-empty
+    queue they return a task -/
+theorem empty_pop_default {β : Type} {B : Backend T β} {wf : β → Prop}
+    {content : β → List (Entry T)} (L : Lawful B wf content) (ops : List (Op T)) (d : Bool) :
+    (live ops = [] →
+      nextOut B ops (.pop d) = (if d then .dflt else .indexError) ∧
+      nextOut B ops (.peek d) = (if d then .dflt else .indexError)) ∧
+    (live ops ≠ [] →
+      (∃ t, nextOut B ops (.pop d) = .task t) ∧ (∃ t, nextOut B ops (.peek d) = .task t)) := by
+  rw [nextOut_eq_spec L, nextOut_eq_spec L]
+  simp only [Spec.step]
+  constructor
+  · intro h
+    simp [h, best, emptyOut]
+  · intro h
+    cases hb : best (live ops) with
+    | none => exact absurd ((best_eq_none _).mp hb) h
+    | some x => exact ⟨⟨x.1, rfl⟩, ⟨x.1, rfl⟩⟩
+
+/-- `len` is the number of live tasks -/
+theorem len_eq_live {β : Type} {B : Backend T β} {wf : β → Prop}
+    {content : β → List (Entry T)} (L : Lawful B wf content) (ops : List (Op T)) :
+    nextOut B ops .len = .len (live ops).length := by
+  rw [nextOut_eq_spec L]; rfl
+
+/-- a returned task is live -/
+theorem returned_task_is_live {β : Type} {B : Backend T β} {wf : β → Prop}
+    {content : β → List (Entry T)} (L : Lawful B wf content) (ops : List (Op T)) (d : Bool) (t : T)
+    (h : nextOut B ops (.pop d) = .task t ∨ nextOut B ops (.peek d) = .task t) :
+    t ∈ (live ops).map Prod.fst := by
+  obtain ⟨p, pre, post, hs, _, _⟩ := pop_returns_max_priority_fifo L ops d t h
+  rw [hs]; simp
+
+/-- `add` returns None; `remove` raises KeyError exactly when the task is not live -/
+theorem add_remove_results {β : Type} {B : Backend T β} {wf : β → Prop}
+    {content : β → List (Entry T)} (L : Lawful B wf content) (ops : List (Op T)) (t : T) (p : Int) :
+    nextOut B ops (.add t p) = .none ∧
+    (t ∈ (live ops).map Prod.fst → nextOut B ops (.remove t) = .none) ∧
+    (t ∉ (live ops).map Prod.fst → nextOut B ops (.remove t) = .keyError) := by
+  rw [nextOut_eq_spec L, nextOut_eq_spec L]
+  refine ⟨rfl, ?_, ?_⟩
+  · intro h
+    obtain ⟨x, hx, hxt⟩ := List.mem_map.mp h
+    have : (live ops).has t = true := by
+      unfold Spec.has; rw [List.any_eq_true]; exact ⟨x, hx, by simp [hxt]⟩
+    simp [Spec.step, this]
+  · intro h
+    have : (live ops).has t = false := by
+      cases hh : (live ops).has t with
+      | false => rfl
+      | true =>
+        unfold Spec.has at hh
+        rw [List.any_eq_true] at hh
+        obtain ⟨x, hx, hxt⟩ := hh
+        exact absurd (List.mem_map.mpr ⟨x, hx, by simpa using hxt⟩) h
+    simp [Spec.step, this]
+
+/-- re-adding a task replaces its priority and moves it to the back of the arrival order;
+    adding a new task appends it -/
+theorem readd_moves_to_back (ops : List (Op T)) (t : T) (p : Int) :
+    live (ops ++ [.add t p]) = (live ops).filter (taskNe t) ++ [(t, p)] := by
+  unfold live Spec.run
+  rw [runFrom_append]
+  simp [Spec.runFrom, Spec.step]
+
+/-- a removed task is never returned again (until it is re-added): after `remove t`, no later
+    pop/peek of a history without `add t` returns `t` -/
+theorem removed_never_returned {β : Type} {B : Backend T β} {wf : β → Prop}
+    {content : β → List (Entry T)} (L : Lawful B wf content) (ops1 ops2 : List (Op T)) (t : T)
+    (hops : ∀ op ∈ ops2, isAddOf t op = false) :
+    Out.task t ∉ ((PQ.run B (ops1 ++ .remove t :: ops2)).2).drop (ops1.length + 1) := by
+  rw [(run_sim L _).2.2]
+  unfold Spec.run
+  have happ : ops1 ++ Op.remove t :: ops2 = (ops1 ++ [Op.remove t]) ++ ops2 := by simp
+  rw [happ, runFrom_append]
+  have hlen : ∀ (s : Spec T) (ops : List (Op T)), (Spec.runFrom s ops).2.length = ops.length := by
+    intro s ops
+    induction ops generalizing s with
+    | nil => rfl
+    | cons o os ih => simp [Spec.runFrom, ih]
+  have hl : (Spec.runFrom ([] : Spec T) (ops1 ++ [Op.remove t])).2.length = ops1.length + 1 := by
+    rw [hlen]; simp
+  simp only
+  rw [List.drop_append_of_le_length (by omega), ← hl, List.drop_length, List.nil_append]
+  apply (not_live_stays _ t _ ops2 hops).1
+  rw [runFrom_append]
+  simp only [Spec.runFrom, Spec.step]
+  split
+  · intro hin
+    obtain ⟨x, hx, hxt⟩ := List.mem_map.mp hin
+    have := (List.mem_filter.mp hx).2
+    simp [taskNe, hxt] at this
+  · rename_i hhas
+    intro hin
+    obtain ⟨x, hx, hxt⟩ := List.mem_map.mp hin
+    apply hhas
+    unfold Spec.has
+    rw [List.any_eq_true]
+    exact ⟨x, hx, by simp [hxt]⟩
+
+/-- an already popped task is never returned again (until it is re-added) -/
+theorem popped_never_returned {β : Type} {B : Backend T β} {wf : β → Prop}
+    {content : β → List (Entry T)} (L : Lawful B wf content) (ops1 ops2 : List (Op T)) (d : Bool) (t : T)
+    (hpop : nextOut B ops1 (.pop d) = .task t)
+    (hops : ∀ op ∈ ops2, isAddOf t op = false) :
+    Out.task t ∉ ((PQ.run B (ops1 ++ .pop d :: ops2)).2).drop (ops1.length + 1) := by
+  rw [nextOut_eq_spec L] at hpop
+  rw [(run_sim L _).2.2]
+  unfold Spec.run
+  have happ : ops1 ++ Op.pop d :: ops2 = (ops1 ++ [Op.pop d]) ++ ops2 := by simp
+  rw [happ, runFrom_append]
+  have hlen : ∀ (s : Spec T) (ops : List (Op T)), (Spec.runFrom s ops).2.length = ops.length := by
+    intro s ops
+    induction ops generalizing s with
+    | nil => rfl
+    | cons o os ih => simp [Spec.runFrom, ih]
+  have hl : (Spec.runFrom ([] : Spec T) (ops1 ++ [Op.pop d])).2.length = ops1.length + 1 := by
+    rw [hlen]; simp
+  simp only
+  rw [List.drop_append_of_le_length (by omega), ← hl, List.drop_length, List.nil_append]
+  apply (not_live_stays _ t _ ops2 hops).1
+  rw [runFrom_append]
+  simp only [Spec.runFrom]
+  unfold live Spec.run at hpop
+  simp only [Spec.step] at hpop ⊢
+  cases hb : best (Spec.runFrom ([] : Spec T) ops1).1 with
+  | none => rw [hb] at hpop; cases d <;> simp [emptyOut] at hpop
+  | some x =>
+    rw [hb] at hpop
+    simp only [Out.task.injEq] at hpop
+    simp only
+    intro hin
+    obtain ⟨y, hy, hyt⟩ := List.mem_map.mp hin
+    have := (List.mem_filter.mp hy).2
+    simp [taskNe, hyt, hpop] at this
+
+end C
+
+/-! ## non-vacuity: concrete histories (size limit 2 forces several sub-lists at once) -/
+section Examples
+
+def exOps : List (Op Nat) :=
+  [.add 1 5, .add 2 5, .add 3 7, .add 4 1, .add 5 5, .add 1 5, .remove 4, .len,
+   .peek false, .pop false, .pop false, .pop false, .pop false, .pop false, .pop true, .remove 9]
+
+/-- ties by earliest (re-)insertion: 1 was re-added after 2 and 5, so it comes last among the 5s -/
+example : (PQ.run (sortedBackend (fun _ => 2)) exOps).2 =
+    [.none, .none, .none, .none, .none, .none, .none, .len 4,
+     .task 3, .task 3, .task 2, .task 5, .task 1, .indexError, .dflt, .keyError] := by decide
+
+example : (PQ.run listHeap exOps).2 = (PQ.run (sortedBackend (fun _ => 2)) exOps).2 := by decide
+
+/-- the backend really is split into several sub-lists in that history -/
+example : (PQ.run (sortedBackend (fun _ => 2)) (exOps.take 6)).1.pq.lists.length = 5 := by decide
+
+/-- a BarrelList with three sub-lists satisfying the hypotheses of section A; inserting at the very end -/
+example : (BL.insert (fun _ => 2) ⟨[[1, 2], [3], [4, 5]]⟩ 5 6).toList = [1, 2, 3, 4, 5, 6] := by decide
+example : (⟨[[1, 2], [3], [4, 5]]⟩ : BL Nat).ok := by simp [BL.ok]
+example : Asc (fun a b : Nat => decide (a < b)) (⟨[[1, 2], [3], [4, 5]]⟩ : BL Nat).toList := by
+  simp [Asc, BL.toList]
+example : bisectRight (fun a b : Nat => decide (a < b)) 3 ⟨[[1, 2], [3], [4, 5]]⟩ = 3 := by decide
+
+/-- hypotheses of `removed_never_returned` / `popped_never_returned` are satisfiable -/
+example : ∀ op ∈ ([.pop false, .add 7 1, .peek true] : List (Op Nat)), isAddOf 3 op = false := by decide
+example : nextOut (sortedBackend (fun _ => 2)) (exOps.take 8) (.pop false) = .task 3 := by decide
+
+end Examples
 
 end C10
